@@ -309,17 +309,22 @@ async fn on_event<K, V, LC>(
                 map.insert(key, value);
             }
             for (key, value) in it {
-                lifecycle.on_remove(key, map, value).await;
+                if dispatch {
+                    lifecycle.on_remove(key, map, value).await;
+                }
             }
         }
         MapMessage::Drop(cnt) => {
             let mut it = mem::take(map).into_iter();
 
-            for (key, value) in (&mut it).take(cnt as usize) {
-                lifecycle.on_remove(key, map, value).await;
-            }
+            let removed = (&mut it).take(cnt as usize).collect::<Vec<_>>();
             for (key, value) in it {
                 map.insert(key, value);
+            }
+            if dispatch {
+                for (key, value) in removed {
+                    lifecycle.on_remove(key, map, value).await;
+                }
             }
         }
     }
